@@ -52,6 +52,7 @@ PF = gen.Profile(
 )
 PF_SUB = replace(PF, subslot=True, odd_eff=True, resolutions=[10, 20, 30, 60])
 PF_ALAP = replace(PF, alap_project=True, onstart=False, pins=False)  # generator draws alap in 1/3 of the cases
+PF_ALAP_DEEP = replace(PF, alap_project=True, alap_always=True, onstart=False, pins=False, depth=5, max_tasks=12, deps=0.85)
 PF_DATED = replace(PF, dated_containers=True, depth=3)
 PF_DW = replace(PF, gap_units=("d", "w"), weeks=(6, 9))
 
@@ -133,6 +134,8 @@ def campaigns(tier):
                  describe="the same with sub-slot efforts and unaligned gaps"),
         Campaign("alap", "hyp", evaluate=eval_project, strategy=lambda: gen.project_specs(PF_ALAP), n=800 if q else 20000,
                  describe="backward projects shaped as the statement allows (1/3 of the draws), else forward"),
+        Campaign("alap_deep", "hyp", evaluate=eval_project, strategy=lambda: gen.project_specs(PF_ALAP_DEEP), n=800 if q else 20000,
+                 describe="backward projects only, nesting up to five levels, dense edges incl. edges on containers of containers"),
         Campaign("dated_containers", "hyp", evaluate=eval_project, strategy=lambda: gen.project_specs(PF_DATED), n=400 if q else 8000,
                  describe="containers carrying a start date whose children have dependencies"),
         Campaign("gap_d_w", "hyp", evaluate=eval_project, strategy=lambda: gen.project_specs(PF_DW), n=300 if q else 6000,
